@@ -255,8 +255,10 @@ def _network_source(ss: FuncModel):
             # ... and in that direction: the parser runs where the object is known to be missing (`is None`, `not in state`),
             # not where it is known to be present
             try:
-                guarded = any(logic.implies(pc, ("atom", a_)) if a_[1].startswith("none:") else
-                              logic.implies(pc, logic.Not(("atom", a_))) if a_[1].startswith("in:") else False for a_ in cands_)
+                # "the object is there": every `in:` atom true and every `none:` atom false -- impossible where the parser runs
+                present = logic.And(*[("atom", a_) if a_[1].startswith("in:") else logic.Not(("atom", a_)) for a_ in cands_
+                                      if a_[1].startswith(("in:", "none:"))])
+                guarded = bool(cands_) and not logic.satisfiable(logic.And(pc, present))
             except logic.TooBig:
                 guarded = False
             if not guarded or not logic.satisfiable(pc):
